@@ -15,7 +15,9 @@ RULE = (
     "(exhaustive single faults, classes XA(Exception) and XC(BaseException), plus XB in thorough), and with pairs of faults (k1<k2) -- "
     "all pairs for N <= 10 in thorough, sampled in quick. Oracle: the reference interpreter, whose try/with clauses are Python's own "
     "try/except/else/finally on the same fault plan: clauses run, finally exactly once, escaping exception, value of try/with, except "
-    "variable bound only in its handler without clobbering a same-named outer variable. Non-trivial = the fault lands after at least "
+    "variable bound only in its handler without clobbering a same-named outer variable. A second generator wraps a with/try/if/or/let "
+    "form in (setv keep FORM) under a catching try, with keep already assigned and read afterwards (an assignment abandoned by an "
+    "exception must leave the old value). Non-trivial = the fault lands after at least "
     "one other effect inside a try/with (not the first event); distinct by (source, fault plan)"
 )
 ASSUMPTIONS = [
@@ -124,6 +126,24 @@ def shard(ctx):
             report(plan, r)
 
     ctx.hyp(strat, one, ctx.per_shard(4000, 60000), "programs")
+
+    # a variable that already holds a value is re-assigned from a statement-lifted construct (with / try / if / and-or) that does
+    # not mention it, under a handler that catches what escapes; afterwards the variable is read: when the construct is left by
+    # an exception, the assignment never happened and the variable must still hold the old value
+    @st.composite
+    def guarded(draw):
+        g = G.Gen(draw, budget=18 if ctx.quick else 30, forms=FORMS, faults=True)
+        env = G.Env()
+        inner = env.child()
+        kind = draw(st.sampled_from(["with", "with", "try", "if", "or", "let"]))
+        node, _info = getattr(g, "g_" + kind)("any", depth - 1, inner)
+        a, b = next(g.ids), next(g.ids)
+        prog = [["setv", [["keep", ["lit", 77]]]],
+                ["try", [["setv", [["keep", node]]], ["eff", a, 0]], [[None, ["XA", "XB", "XC"], [["eff", b, 0]]]], None, None],
+                ["var", "keep"]]
+        return prog
+
+    ctx.hyp(st.tuples(guarded(), st.sampled_from(["module", "function"]), st.randoms(use_true_random=False)), one, ctx.per_shard(1200, 20000), "guarded-assignment")
 
 
 MATCHERS = {
